@@ -79,7 +79,7 @@ def TgtOK (m : Mode) (Γ : Ctx) (gρ : GEnv) (ty : Ty) : Prop :=
 /-- what a run of the compiled statements `S` must do, given what the `Sem` run did -/
 def Concl (env : Env) (η : Hp) (F : GFile) (S : List GStmt) (m : Mode) (gρ : GEnv) (gw : GWorld) (ty : Ty) : Res Val → Prop
   | .ok v w' => ∃ η', η.le η' ∧ ∃ D gv gw', BlockS F gρ gw S (.ok (D ++ post m gρ gv, .normal) gw') ∧ VRel env η' v ty gv ∧
-      HasTy env η' v ty ∧ WRel env η' w' gw' ∧ (∀ y, y ∈ keys D → y ∈ ndDecls S)
+      HasTy env η' v ty ∧ WRel env η' w' gw' ∧ (∀ y, y ∈ keys D → y ∈ topDecls S)
   | .fail (.panic k) w' => ∃ η', η.le η' ∧ ∃ gw', BlockS F gρ gw S (.fail (.panic k) gw') ∧ WRel env η' w' gw'
   | _ => True
 
@@ -192,14 +192,11 @@ def ConclSw (env : Env) (η : Hp) (run : GRes (GEnv × Sig) → Prop) (m : Mode)
   | .fail (.panic k) w' => ∃ η', η.le η' ∧ ∃ gw', run (.fail (.panic k) gw') ∧ WRel env η' w' gw'
   | _ => True
 
-/-- the names the compiled arms declare -/
-def armDecls : List (Imm × List GStmt) → List String
-  | [] => []
-  | p :: rest => ndDecls p.2 ++ armDecls rest
-
-def optDecls : Option (List GStmt) → List String
-  | some b => ndDecls b
-  | none => []
+/-- the clauses of a `switch` and its default are about to run in `gρ`: each is its own block -/
+structure GInvA (Bad : List String) (ra : List (Imm × List GStmt)) (rd : Option (List GStmt)) (gρ : GEnv) : Prop where
+  arms : ∀ p, p ∈ ra → GInv Bad p.2 gρ
+  dflt : match rd with | some b => GInv Bad b gρ | none => True
+  goodK : ∀ y, y ∈ keys gρ → ¬ y ∈ Bad
 
 /-- the arms of a `match` on an enum variable against the clauses of the type switch; `gρ` already
     holds the binding of the switch -/
@@ -209,7 +206,7 @@ def SimME (n : Nat) : Prop :=
     fragArms env file G Γ K (.enumK x (.enum en)) ty arms = true → fragD env file G Γ K ty d = true →
     EnvRel env η Γ ρ gρ → KRel K ρ → WRel env η w gw →
     Sem.lookupEnv ρ x = some (.enumV en i vs) → HasTy env η (.enumV en i vs) (.enum en) → VRel env η (.enumV en i vs) (.enum en) gv →
-    GInvN Bad (armDecls (compileArms env m st arms).1 ++ optDecls (compileDflt env m (compileArms env m st arms).2 d).1) gρ →
+    GInvA Bad (compileArms env m st arms).1 (compileDflt env m (compileArms env m st arms).2 d).1 gρ →
     TgtOK m Γ gρ ty → "_" ∈ Bad → FCtx env file G Bad η → (∀ c, c ∈ calleesArms (Γ.map (·.1)) arms ++ calleesD (Γ.map (·.1)) d → c ∈ Bad) →
     ConclSw env η (TSwS F gρ gw gv (typeCases env (compileArms env m st arms).1) (compileDflt env m (compileArms env m st arms).2 d).1)
       m gρ ty (Sem.evalArms n P ρ w (.enumV en i vs) (armsToExpr arms) (dfltToExpr d))
@@ -220,7 +217,7 @@ def SimMV (n : Nat) : Prop :=
     (gρ : GEnv) (gw : GWorld) (Bad : List String) (v : Val) (gv : GVal),
     switchTy sty = true → fragArms env file G Γ K (.valK sty) ty arms = true → fragD env file G Γ K ty d = true →
     EnvRel env η Γ ρ gρ → KRel K ρ → WRel env η w gw → HasTy env η v sty → VRel env η v sty gv →
-    GInvN Bad (armDecls (compileArms env m st arms).1 ++ optDecls (compileDflt env m (compileArms env m st arms).2 d).1) gρ →
+    GInvA Bad (compileArms env m st arms).1 (compileDflt env m (compileArms env m st arms).2 d).1 gρ →
     TgtOK m Γ gρ ty → "_" ∈ Bad → FCtx env file G Bad η → (∀ c, c ∈ calleesArms (Γ.map (·.1)) arms ++ calleesD (Γ.map (·.1)) d → c ∈ Bad) →
     ConclSw env η (SwS F gρ gw gv (valueCases (matchKind sty) (compileArms env m st arms).1) (compileDflt env m (compileArms env m st arms).2 d).1)
       m gρ ty (Sem.evalArms n P ρ w v (armsToExpr arms) (dfltToExpr d))
